@@ -319,6 +319,8 @@ class Planner:
             pos = wr.randrange(0, min(len(text), 6))
         full = wr.random() < 0.8
         wired = m.wire(text)
+        if m.binary and wr.random() < 0.35:
+            wired = ['bytearray', text]        # a mutable buffer
         if wr.random() < 0.03:
             # input of the other kind (bytes for a text grammar, str for a binary one): a legitimate
             # call with its own outcome (usually TypeError), after which nothing may have changed
@@ -413,6 +415,17 @@ class Planner:
         wr = self.wr
         m = self.infos[op['mod']]
         new = {k: v for k, v in op.items() if k in ('op', 'mod', 'entry', 'text', 'pos', 'full')}
+        if isinstance(op['text'], list) and op['text'][0] == 'bytearray' and m.texts and wr.random() < 0.6:
+            # the caller refills the buffer in place and parses the same object again
+            new['text'] = ['bytearray', wr.choice(m.texts)]
+            new['textobj'] = 'refill'
+            new['pos'] = 0
+            op['keep_text'] = True
+            new['keep_text'] = True
+            rec = self.ref(new)
+            new['budget'] = U.REF_BUDGET if rec['out'].get('err') == 'nontermination' else min(U.SIM_BUDGET_CAP, 200 * rec['steps'] + 100_000)
+            new['_steps'] = rec['steps']
+            return new
         what = wr.choice(['pos', 'pos', 'full', 'entry', 'same'])       # 'same': the very same call once more
         n = text_len(op)
         if what == 'pos' and n > 0:
@@ -669,7 +682,8 @@ class Planner:
                     continue
                 # a parse: mostly on the hot module so that calls collide
                 cands = [i for i in live if getattr(self.infos[i], 'owner', ci) == ci]
-                if ops and ops[-1]['op'] == 'parse' and text_len(ops[-1]) < 300 and wr.random() < 0.15:
+                if ops and ops[-1]['op'] == 'parse' and text_len(ops[-1]) < 300 and wr.random() < (
+                        0.5 if (isinstance(ops[-1]['text'], list) and ops[-1]['text'][0] == 'bytearray') else 0.15):
                     ops.append(self.gen_sibling(ops[-1]))
                     continue
                 mid = hot if (hot in cands and wr.random() < 0.65) else wr.choice(cands)
